@@ -10,7 +10,7 @@ Tie to the source (DESIGN.md 4.2, 4.3, 6.10):
     probes at 3, -7/2, 0.  `units_ok gen_table = true`, `table_inverse gen_table
     = true` and `probes_ok gen_table gen_probes = true` are re-proved by
     computation and the theorems of Properties/C18.v are instantiated with it;
-  * the two loops of convert() are tied SYMBOLICALLY: forests (depth 1-6, several
+  * the two loops of convert() are tied SYMBOLICALLY: forests (depth 1-6, one in five up to 40, several
     roots) of the real `Unit` class whose callables are exact affine maps that log
     (unit id, direction); log and exact result of the real convert() must equal
     the model's (trace_tbl / convert_tbl over Q), compared inside Coq;
@@ -1022,17 +1022,19 @@ def small_frac(r, nonzero=False):
 
 def gen_forest(r):
     """-> list of (parent|None, a, b): unit i converts to its base by x -> a*x + b"""
-    n = r.randint(2, 12)
+    tall = r.random() < 0.2                   # chains of any depth: a ladder far taller than the built-in units' 2-3 hops
+    n = r.randint(14, 40) if tall else r.randint(2, 12)
+    maxd = 40 if tall else 6
     nroots = r.choice([1, 1, 2, 3])
     spec, depth = [], []
-    shape = r.random()
+    shape = r.random() * (0.4 if tall else 1)
     linear = r.random() < 0.35
     for i in range(n):
         if i < nroots:
             spec.append((None, Fraction(1), Fraction(0)))
             depth.append(0)
             continue
-        cands = [j for j in range(i) if depth[j] < 6]
+        cands = [j for j in range(i) if depth[j] < maxd]
         if shape < 0.4:                      # deep: hang below the deepest allowed
             m = max(depth[j] for j in cands)
             cands = [j for j in cands if depth[j] == m]
@@ -1625,11 +1627,11 @@ def shrink_forest(im, v):
 
 
 def systematic_forests():
-    """smallest first: single chains of depth 1..6, linear then affine"""
+    """smallest first: single chains of depth 1..6 and a few tall ones, linear then affine"""
     specs = []
-    for d in range(1, 7):
-        specs.append(chain_forest([(2 + i, 0) for i in range(d)]))
-        specs.append(chain_forest([(2 + i, (i + 1) ** 2) for i in range(d)]))   # no common fixed point: no two links commute
+    for d in list(range(1, 7)) + [9, 12, 17, 24, 33]:
+        specs.append(chain_forest([(2 + i % 5, 0) for i in range(d)]))
+        specs.append(chain_forest([(2 + i % 5, (i + 1) ** 2) for i in range(d)]))   # no common fixed point: no two links commute
     return specs
 
 
@@ -2139,7 +2141,7 @@ def run(ctx):
                 "the measured 5 V rail, other supplies, 0, tiny, negative; a third of them on a sensor built with "
                 "0 / a placeholder; fewer calibrations there, every trailing assignment is followed by a read); "
                 "every call's result compared; forests: 2-12 units, "
-                "1-3 roots, depth <= 6, exact affine links, 5 conversions each; re-entrant definitions: 3-9 units, "
+                "1-3 roots, depth <= 6 (one in five: up to 40), exact affine links, 5 conversions each; re-entrant definitions: 3-9 units, "
                 "~40 % of the non-root units have callables that call convert() on two earlier units (nesting "
                 "allowed), every list has a unit chained BELOW such a unit, 5 conversions each (target below / "
                 "source below / same unit / random), complete log of callable applications and exact result "
